@@ -1,17 +1,17 @@
 (* C06 — Quaver .qua read/write.  Property theorems only: each is closed by [exact] from Proofs/QuaProofs.v
    (or by vm_compute for table obligations and concrete witnesses re-checked against the live tables).
 
-   Full statement aimed at (DESIGN 4/C06), NOT proved in this generality:
-     qua_read_denotes  : forall doc, wf_docb doc = true -> guard doc -> read_specb doc (Live.read doc) = true
-     qua_write_denotes : forall c, wf_chartb false c = true -> write_specb c (Live.write c) = true   (incl. qua_write_wf)
-     and the two round trips.
-   What is proved for all inputs: the oracle's soundness (a `true` of the boolean oracles evaluated on the
-   implementation's outputs really is the declarative statement), truncation < 1 ms and its idempotence (no drift),
-   the Tags split/join laws, the hit writer pipeline on lists with the declared columns in declared order (any number
-   of rows, any cells), the hold end-time cell law, the timing-point / scroll-velocity reader per record, and the repaired note reader on
-   the record shapes with omitted StartTime / KeySounds / Lane (all values, fixed shapes).
-   Missing (hence _partial): invariance of the DataFrame pipelines under column order and the assembly of the
-   sections into the whole-document statement; these are covered by the per-run correspondence only. *)
+   The whole-document statements of DESIGN 4/C06 are proved for ALL inputs of the domains
+     wf_docb    (documents: the three sections are lists of records carrying only format keys with int times, int lanes >= 1,
+                 key sounds lists of strings, numeric Bpm / Multiplier; typed metadata; foreign top-level keys allowed;
+                 any key may be omitted, in some or in all records) and
+     wf_chartb false (charts: the declared columns in any order, numeric cells, integral columns >= 0, list key sounds,
+                 typed metadata, tags without blanks):
+     C06_qua_read_denotes, C06_qua_write_wf_denotes (= qua_write_wf + qua_write_denotes), C06_qua_read_after_write,
+     C06_qua_write_after_read, plus oracle soundness, truncation / no-drift / Tags laws and the per-list theorems.
+   Not proved: generation 2 = generation 1 as a whole-document statement (cell level: C06_no_drift_cell; per run: oracle),
+   completeness of the boolean oracles, and anything about charts outside the strict domain (extra columns, NaN cells):
+   those are covered by the per-run correspondence only.  PyYAML is outside (tree level). *)
 From Coq Require Import ZArith QArith Qabs List Bool.
 From RV Require Import Base.PyNum Formats.Qua Formats.QuaSpec Generated.Tables Proofs.QuaProofs.
 Import ListNotations.
@@ -73,6 +73,40 @@ Proof. exact bpms_to_yaml_ok. Qed.
 Theorem C06_svs_to_yaml_ok : forall f, frame_okb sv_decl false f = true ->
   exists rows, svs_to_yaml f = Some rows /\ PointsOK K_Multiplier 1%Q N_multiplier (f_rows f) sv_keys rows.
 Proof. exact svs_to_yaml_ok. Qed.
+
+(* QuaMap.read, WHOLE DOCUMENT: for every document of the domain the reader succeeds, the chart it returns is exactly
+   (multisets of notes, timing points, scroll velocities; metadata with the defaults' types) the chart the document
+   denotes under the format's defaults, and that chart is in the writer's strict domain *)
+Theorem C06_qua_read_ok : forall hc lc bc sc md doc, defaults_ok hc lc bc sc md = true -> wf_docb doc = true ->
+  exists c, qua_read_gen hc lc bc sc md hits_from_yaml holds_from_yaml doc = Some c /\
+            read_specb doc (Some c) = true /\ wf_chartb false c = true.
+Proof. exact qua_read_ok. Qed.
+Theorem C06_live_defaults_ok :
+  defaults_ok Tables.c06.hit_cols Tables.c06.hold_cols Tables.c06.bpm_cols Tables.c06.sv_cols Live.meta_defaults = true.
+Proof. exact live_defaults_ok. Qed.
+Theorem C06_qua_read_denotes : forall doc, wf_docb doc = true -> ReadSpec doc (Live.read doc).
+Proof. exact qua_read_denotes. Qed.
+Theorem C06_written_doc_in_reader_domain : forall d, wf_qua_docb d = true -> wf_docb d = true.
+Proof. exact wf_qua_doc_is_wf_doc. Qed.
+(* the two round trips, up to the 1 ms resolution of the writer *)
+Theorem C06_qua_read_after_write : forall c, wf_chartb false c = true ->
+  exists d c', Live.write c = Some d /\ Live.read d = Some c' /\
+               WriteSpec c (Some d) /\ ReadSpec d (Some c') /\ wf_chartb false c' = true.
+Proof. exact qua_read_after_write. Qed.
+Theorem C06_qua_write_after_read : forall doc, wf_docb doc = true ->
+  exists c d, Live.read doc = Some c /\ Live.write c = Some d /\
+              ReadSpec doc (Some c) /\ WriteSpec c (Some d) /\ wf_docb d = true.
+Proof. exact qua_write_after_read. Qed.
+(* the two note readers on typed records, any key order, any subset of keys omitted in some or all records *)
+Theorem C06_hits_from_yaml_ok : forall recs, Forall hit_rec_typed recs ->
+  exists fr, hits_from_yaml recs = Some fr /\ frame_okb (hit_decl false) false fr = true /\
+    exists ns, omap hit_row_denote (f_rows fr) = Some ns /\ omap note_denote (map YMap recs) = Some ns.
+Proof. exact hits_from_yaml_ok. Qed.
+Theorem C06_holds_from_yaml_ok : forall recs, Forall hold_rec_typed recs ->
+  exists fr, holds_from_yaml recs = Some fr /\ frame_okb (hold_decl false) false fr = true /\
+    exists ns es, omap hold_row_denote (f_rows fr) = Some ns /\ omap note_denote (map YMap recs) = Some es /\
+                  Forall2 (fun x y => note_eqb x y = true) es ns.
+Proof. exact holds_from_yaml_ok. Qed.
 
 (* writer, hits: for every list with the declared columns, one well-formed record per row denoting the row *)
 Theorem C06_write_hits_partial : forall l, forallb hit_ok l = true -> hits_to_yaml (canon_hits l) = Some (map hit_out l).
